@@ -162,6 +162,9 @@ class Translator:
                         acts.append(f'ACtxDisAll {self.it.h(a[1])} {oz(self.it.h(a[2]))}')
                     elif a[0] == 'delstate':
                         acts.append(f'ACtxDel {self.it.h(a[1])}')
+                    elif a[0] == 'wr':       # one write_entity call for several (existing) context states
+                        for hh in a[2]:
+                            acts.append(f'ACtxGet {self.it.h(hh)} {pay("cstates", hh, 7)} None')
             elif op['k'] == 'descr':
                 k = 6
                 for a in live(op['actions'] if ab is None else op['actions'][:ab]):
